@@ -16,6 +16,7 @@ def handle (line : String) : String :=
       | "overlap" => Drv.opOverlap j
       | "storeops" => Drv.opStoreOps j
       | "loc" => Drv.opLoc j
+      | "registry" => Drv.opRegistry j
       | "cacheopt" => Drv.opCacheOpt j
       | "history" => Drv.opHistory j
       | "argctx" => Drv.opArgCtx j
